@@ -139,6 +139,7 @@ func resetCaches() {
 	aliasCache = map[*packages.Package]map[types.Object]*types.Var{}
 	closeCache = map[*FuncInfo]*closeAnalysis{}
 	predCache = map[*types.Func]*predSummary{}
+	litPredCache = map[types.Object]*predSummary{}
 	helperMemo = map[string]*helperSummary{}
 }
 
